@@ -2,6 +2,8 @@
 
 from __future__ import annotations
 
+import re
+
 import re._parser as sp
 
 VERBS = [" I", "RQ", "RP", " W"]
@@ -218,6 +220,16 @@ def gen_code_tables(write, Fail) -> None:  # noqa: N803
     for nm in ("CTL", "UFC", "PRG", "DTS", "DT2", "OTB", "HGI", "HCW"):
         out.append(f"Definition DEVTYPE_{nm} : Z := {int(getattr(DEV_TYPE_MAP, nm))}.")
     out.append(f"Definition ARRAY_ELEM_CHARS : list (Z * Z) := [{'; '.join(array_shapes(Fail))}].")
+    # the API map: (verb index, code, constructor name as character codes)
+    from ramses_tx.command import CODE_API_MAP  # noqa: PLC0415
+
+    rows = []
+    for key, fn in CODE_API_MAP.items():
+        verb, code = key.split("|")
+        if verb not in VERBS or not re.fullmatch(r"[0-9A-F]{4}", code):
+            raise Fail(f"CODE_API_MAP key {key!r} is not 'verb|code'")
+        rows.append(f"({VERBS.index(verb)}, {int(code, 16)}, [{'; '.join(str(ord(c)) for c in fn.__name__)}])")
+    out.append(f"Definition API_MAP : list (Z * Z * list Z) := [{'; '.join(rows)}].")
     write("GenTables.v", "\n".join(out) + "\n")
 
 
